@@ -6,6 +6,9 @@
  *  C code leaves pb without the bytes of the last chunk, by design) */
 #include "jtree.h"
 #include "json_tokener.h"
+#include "json_util.h"
+#include <sys/mman.h>
+#include <unistd.h>
 
 static struct json_tokener *tok;
 static int poisoned; /* an error status was returned: the tokener must be reset before further use */
@@ -82,7 +85,28 @@ int main(void)
 			puts("bad-op");
 			continue;
 		}
-		if (!strcmp(W[0], "new") && NW == 3)
+		if (!strcmp(W[0], "fdx") && NW == 3)
+		{
+			/* the same depth limit through json_object_from_fd_ex(fd, depth): value dump, or - */
+			size_t n;
+			unsigned char *d = unhex(W[2], &n);
+			int fd = memfd_create("fdx", 0);
+			struct json_object *o = NULL;
+			if (fd >= 0 && write(fd, d, n) == (ssize_t)n && lseek(fd, 0, SEEK_SET) == 0)
+				o = json_object_from_fd_ex(fd, atoi(W[1]));
+			if (fd >= 0)
+				close(fd);
+			printf("fdx ");
+			if (o)
+				jt_dump(o);
+			else
+				putchar('-');
+			putchar('\n');
+			if (o)
+				json_object_put(o);
+			free(d);
+		}
+		else if (!strcmp(W[0], "new") && NW == 3)
 		{
 			if (tok)
 				json_tokener_free(tok);
